@@ -201,11 +201,12 @@ def run(ctx):
             cs = L.encode_callsite(case, nm, res["own_names"], res["outer_names"])
             if v == "accepted":
                 repl = L.extract_inlined(res["orig"], res["inlined"])
-                ren = list(zip(callee_local_order(case), res["new_names"]))
                 trivial = not case["body"] or case["body"][0][0] == "return"
                 if trivial:
                     ren = list(zip(res["new_names"], res["new_names"]))     # nothing may have been merged
-                if repl is None or (not trivial and len(res["new_names"]) != len(case["locals"])):
+                else:
+                    ren = L.pair_renaming(callee_local_order(case), res["new_names"])
+                if repl is None or ren is None:
                     ctx.hist("structure_mismatch", "yes")
                     if nstruct < 3:
                         ctx.violation({"property": "C07", "broken": "the inlined caller does not have the original structure around the "
